@@ -54,6 +54,24 @@ def observe(parser, q, alias):
     return o
 
 
+class Failed:
+    """Stands for a parser whose construction / first touch raised on a legal whitelist: every lookup then reports that
+    exception as its observation (a raise of the code under test is for TLC to judge, never a driver crash)."""
+
+    def __init__(self, ex):
+        self.ex = ex
+
+    def getIndexCorrectedBarcodeAndHammingDistance(self, *a, **kw):
+        raise self.ex
+
+
+def guarded(fn):
+    try:
+        return fn()
+    except Exception as ex:
+        return Failed(ex)
+
+
 def all_strings(L):
     import itertools
     return [''.join(t) for t in itertools.product('ACGTN', repeat=L)]
@@ -115,39 +133,43 @@ def run_small(scn, tid, rng, root, BarcodeParser):
         # answers if the two whitelists were mixed up
         with open(os.path.join(d, alias + 'x.bc'), 'w') as h:
             h.write('N' * L + '\n' + 'A' * L + '\n')
-    if via == 'api':
-        parser = BarcodeParser(d)   # empty directory
-        for bc, it in wl:
-            parser.addBarcode(alias, barcode=dec(bc), index=int(it) if it.isdigit() else it)
-        parser.expand(k, alias=alias)
-        if tid % 10 == 0:
-            parser.expand(k, alias=alias)      # expanding twice is idempotent
-    else:
-        # the lazyLoad argument as seen from this alias: None / names this alias (alone or with a name matching no file) or '*' /
-        # names only OTHER aliases: exactly the tuple demux.py passes, or the decoy alias of this directory (a really mixed parser)
-        if lazyarg == 'none':
-            lz = None
-        elif lazyarg == 'other':
-            lz = ('10x_3M-february-2018',) if tid % 2 else (alias + 'x', 'nofile')
-        else:
-            lz = ((alias,), '*', (alias, 'nofile'))[tid % 3]
-        parser = BarcodeParser(d, hammingDistanceExpansion=k, lazyLoad=lz)
     touch = scn.get('touch', 'lookup')
-    if tid % 6 == 1:
-        # read-only accessors used for reporting, on a possibly still pending alias, before anything else: the lookups that follow
-        # (and the lazy load they trigger) must not be disturbed by the empty table entries these calls create
-        parser.getTargetCount(alias)
-        parser.getBarcodeMapping()
-    if lazy and touch == 'getitem':
-        parser[alias]          # __getitem__: the other public access that loads a pending alias (before any lookup)
-    elif not lazy and via == 'file' and tid % 6 == 2:
-        parser[alias]          # ... and on an alias that is already loaded
+
+    def make():
+        if via == 'api':
+            parser = BarcodeParser(d)   # empty directory
+            for bc, it in wl:
+                parser.addBarcode(alias, barcode=dec(bc), index=int(it) if it.isdigit() else it)
+            parser.expand(k, alias=alias)
+            if tid % 10 == 0:
+                parser.expand(k, alias=alias)      # expanding twice is idempotent
+        else:
+            # the lazyLoad argument as seen from this alias: None / names this alias (alone or with a name matching no file) or '*' /
+            # names only OTHER aliases: exactly the tuple demux.py passes, or the decoy alias of this directory (a really mixed parser)
+            if lazyarg == 'none':
+                lz = None
+            elif lazyarg == 'other':
+                lz = ('10x_3M-february-2018',) if tid % 2 else (alias + 'x', 'nofile')
+            else:
+                lz = ((alias,), '*', (alias, 'nofile'))[tid % 3]
+            parser = BarcodeParser(d, hammingDistanceExpansion=k, lazyLoad=lz)
+        if tid % 6 == 1:
+            # read-only accessors used for reporting, on a possibly still pending alias, before anything else: the lookups that follow
+            # (and the lazy load they trigger) must not be disturbed by the empty table entries these calls create
+            parser.getTargetCount(alias)
+            parser.getBarcodeMapping()
+        if lazy and touch == 'getitem':
+            parser[alias]          # __getitem__: the other public access that loads a pending alias (before any lookup)
+        elif not lazy and via == 'file' and tid % 6 == 2:
+            parser[alias]          # ... and on an alias that is already loaded
+        return parser
+    parser = guarded(make)
     qs = all_strings(L)
     rng.shuffle(qs)
     ans = [observe(parser, q, alias) for q in qs]
     again = [observe(parser, q, alias) for q in qs[:3] + qs[-1:]]       # history: the same parser asked again
     shutil.rmtree(d, True)
-    return {'ev': 'small', 'again': again, 'tid': tid, 'L': L, 'k': k, 'lazy': lazy, 'lazyarg': lazyarg, 'alias': alias,
+    return {'ev': 'small', 'again': again, 'gz': via == 'file' and names[0].endswith('.gz'), 'load_raised': type(parser.ex).__name__ if isinstance(parser, Failed) else '', 'tid': tid, 'L': L, 'k': k, 'lazy': lazy, 'lazyarg': lazyarg, 'alias': alias,
             'alias_kind': alias_kind, 'touch': touch, 'via': via, 'nfiles': len(files), 'fmt': fmts,
             'wl': wl, 'ans': ans}
 
@@ -237,22 +259,27 @@ def replay(out, ev, BarcodeParser, md):
                 files.append({'fmt': ev['fmt'][fno], 'bcs': [b for b, _ in part], 'idx': [i for _, i in part]})
             d = tempfile.mkdtemp(prefix='bcdir_', dir=root)
             alias = ev.get('alias', 'w')
-            if ev['via'] == 'api':
-                parser = BarcodeParser(d)
-                for b, it in ev['wl']:
-                    parser.addBarcode(alias, barcode=dec(b), index=int(it) if it.isdigit() else it)
-                parser.expand(ev['k'], alias=alias)
-            else:
-                for fno, fl in enumerate(files):
-                    lines = [dec(b) if fl['fmt'] == 'bc' else (dec(b) + '\t' + it if fl['fmt'] == 'bc_idx' else it + ' ' + dec(b))
-                             for b, it in zip(fl['bcs'], fl['idx'])]
-                    with open(os.path.join(d, alias + ('.bc', '.tsv')[fno]), 'w') as h:
-                        h.write('\n'.join(lines) + '\n')
-                la = ev.get('lazyarg', 'this' if ev['lazy'] else 'none')
-                parser = BarcodeParser(d, hammingDistanceExpansion=ev['k'],
-                                       lazyLoad={'none': None, 'other': ('10x_3M-february-2018',)}.get(la, (alias,)))
-                if ev['lazy'] and ev.get('touch') == 'getitem':
-                    parser[alias]
+            def make():
+                if ev['via'] == 'api':
+                    parser = BarcodeParser(d)
+                    for b, it in ev['wl']:
+                        parser.addBarcode(alias, barcode=dec(b), index=int(it) if it.isdigit() else it)
+                    parser.expand(ev['k'], alias=alias)
+                else:
+                    for fno, fl in enumerate(files):
+                        lines = [dec(b) if fl['fmt'] == 'bc' else (dec(b) + '\t' + it if fl['fmt'] == 'bc_idx' else it + ' ' + dec(b))
+                                 for b, it in zip(fl['bcs'], fl['idx'])]
+                        gz = ev.get('gz') and fno == 0
+                        with (gzip.open(os.path.join(d, alias + '.bc.gz'), 'wt') if gz else
+                              open(os.path.join(d, alias + ('.bc', '.tsv')[fno]), 'w')) as h:
+                            h.write('\n'.join(lines) + ('\n' if lines else ''))
+                    la = ev.get('lazyarg', 'this' if ev['lazy'] else 'none')
+                    parser = BarcodeParser(d, hammingDistanceExpansion=ev['k'],
+                                           lazyLoad={'none': None, 'other': ('10x_3M-february-2018',)}.get(la, (alias,)))
+                    if ev['lazy'] and ev.get('touch') == 'getitem':
+                        parser[alias]
+                return parser
+            parser = guarded(make)
             e2 = dict(ev)
             e2['ans'] = [observe(parser, dec(a['q']), alias) for a in ev['ans']]
             e2['again'] = [observe(parser, dec(a['q']), alias) for a in ev.get('again', [])]
@@ -262,9 +289,12 @@ def replay(out, ev, BarcodeParser, md):
             path = [p for p in sorted(os.listdir(folder))
                     if os.path.splitext(p)[0].replace('.gz', '').replace('.bc', '') == ev['alias']][0]
             ent = read_whitelist(os.path.join(folder, path))
-            parser = BarcodeParser(folder, hammingDistanceExpansion=ev['k'], lazyLoad='*')
-            if ev.get('touch') == 'getitem':
-                parser[ev['alias']]
+            def make():
+                parser = BarcodeParser(folder, hammingDistanceExpansion=ev['k'], lazyLoad='*')
+                if ev.get('touch') == 'getitem':
+                    parser[ev['alias']]
+                return parser
+            parser = guarded(make)
             f.write(json.dumps({'ev': 'wl', 'tid': 0, 'alias': ev['alias'], 'dir': ev['dir'], 'k': ev['k'],
                                 'entries': [[enc(b), i] for b, i in ent]}) + '\n')
             o = observe(parser, ''.join(LET[c] if c in LET else chr(c) for c in ev['q']), ev['alias'])
@@ -322,16 +352,19 @@ def main():
                     # one parser per (directory, k) serves all its aliases one after the other (as one demultiplexer run does)
                     if (sub, k) not in parsers:
                         if k == 1 and sub == 'barcodes':     # exactly as demux.py builds its barcode parser (mixed lazy / eager)
-                            parsers[(sub, k)] = BarcodeParser(hammingDistanceExpansion=k, barcodeDirectory=folder,
-                                                              lazyLoad=("10x_3M-february-2018",))
+                            parsers[(sub, k)] = guarded(lambda: BarcodeParser(hammingDistanceExpansion=k, barcodeDirectory=folder,
+                                                                              lazyLoad=("10x_3M-february-2018",)))
                         elif k == 1:                          # ... and its index parser (all eager)
-                            parsers[(sub, k)] = BarcodeParser(hammingDistanceExpansion=k, barcodeDirectory=folder)
+                            parsers[(sub, k)] = guarded(lambda: BarcodeParser(hammingDistanceExpansion=k, barcodeDirectory=folder))
                         else:
-                            parsers[(sub, k)] = BarcodeParser(folder, hammingDistanceExpansion=k, lazyLoad='*')
+                            parsers[(sub, k)] = guarded(lambda: BarcodeParser(folder, hammingDistanceExpansion=k, lazyLoad='*'))
                     parser = parsers[(sub, k)]
                     touch = 'getitem' if k == 2 else 'lookup'      # first access to the lazy alias
-                    if touch == 'getitem':
-                        parser[alias]
+                    if touch == 'getitem' and not isinstance(parser, Failed):
+                        try:
+                            parser[alias]
+                        except Exception as ex:      # this alias cannot be loaded: its lookups report the exception
+                            parser = Failed(ex)
                     tid += 1
                     emit({'ev': 'wl', 'tid': tid, 'alias': alias, 'dir': sub, 'k': k, 'entries': [[enc(b), i] for b, i in ent]})
                     for q in gen_queries(rng, ent, nq):
